@@ -162,6 +162,45 @@ def search(payload):
         f.setdefault("what", f"a yielded value is on the wrong side: {f.get('value')} -> {f.get('p(value)')}")
         f.setdefault("line_events", 0)
     fails += hfails
+    # VERY long reads (120 000 values, untraced): next() must keep returning, whatever the process has produced so far
+    for mode_, genf_, p_ in (("true", generate_true, ge_p(5)), ("true", generate_true, is_int_p), ("false", generate_false, ge_p(5)), ("true", generate_true, le_p(-7.5))):
+        random.seed(int(payload["seed"]) + 17)
+        it_ = iter(genf_(p_))
+        got_ = 0
+        try:
+            for _ in range(120_000):
+                next(it_)
+                got_ += 1
+        except StopIteration:
+            pass
+        except BaseException as e_:  # noqa: BLE001
+            if isinstance(e_, (KeyboardInterrupt, SystemExit)):
+                raise
+            fails.append({"p": repr(p_), "generate": mode_, "position": got_, "what": f"internal error {type(e_).__name__}: {str(e_)[:120]}", "line_events": 0})
+        n += got_ // 1000
+    # the public keyword arguments of the set-of generator (sizes within what the element kind can supply): a first value must arrive
+    from predicate.generator.generate_true import generate_set_of_p as _gen_set_of
+    for kw in ({"min_size": 8, "max_size": 10}, {"min_size": 5, "max_size": 5}, {"min_size": 1, "max_size": 1}, {"min_size": 0, "max_size": 0}, {"min_size": 3, "max_size": 9, "order": True}):
+        for e_ in (is_int_p, is_str_p, is_float_p):
+            for seed_ in range(6):
+                random.seed(seed_ * 31 + int(payload["seed"]))
+                n += 1
+                try:
+                    kind, v, lines = g.pull(iter(_gen_set_of(is_set_of_p(e_), **kw)))
+                except Exception as ex_:  # noqa: BLE001
+                    kind, v, lines = "error", f"{type(ex_).__name__}: {ex_}", 0
+                if kind == "value":
+                    ok_ = hasattr(v, "__len__") and kw["min_size"] <= len(v) <= kw["max_size"]       # (a set, or a tuple of its members in random order)
+                    if not ok_:
+                        fails.append({"p": f"is_set_of_p({e_!r}) with {kw}", "generate": "true", "position": 0, "what": f"a set of {len(v) if hasattr(v, '__len__') else '?'} members for the sizes asked", "line_events": lines})
+                        break
+                elif kind != "slow":
+                    fails.append({"p": f"is_set_of_p({e_!r}) with {kw}", "generate": "true", "position": 0, "seed": seed_,
+                                  "what": ("a satisfiable request gave an empty stream" if kind == "stop" else f"{kind}: {v}"), "line_events": lines})
+                    break
+            else:
+                continue
+            break
     for p in UNSAT_TRUE:
         vals, err = g.take(generate_true(p), 3)
         n += 1
